@@ -1,54 +1,554 @@
-/* Contracts for crab::domains::wrapped_interval<ikos::z_number> (lib/wrapped_interval.cpp) — properties
- * C13 (sound over-approximation of fixed-width arithmetic), C04 (order / lattice), C05 (widening / narrowing). */
+/* Contracts for crab::domains::wrapped_interval<ikos::z_number> (lib/wrapped_interval.cpp, wrapped_interval_impl.hpp) —
+ * properties C13 (sound over-approximation of fixed-width arithmetic under wrap-around), C04 (order / lattice operations
+ * agree with the concretisation), C05 (widening is an upper bound and grows geometrically; narrowing keeps its second
+ * argument).  Vocabulary: spec.h.  The crab::wrapint operations that the class calls are their CONTRACTS of unit wrapint
+ * (models/wrapint_contracts_model.c); z_number is models/zmodel.c.
+ *
+ * WIDTH.  `vary=WIW:...` fixes the width of the operation (one run per value, every operand of that width is covered);
+ * a check without WIW runs with the width SYMBOLIC: one query for all widths 1..64.
+ *
+ * LEMMA-CONDITIONED SOUNDNESS.  SAT solvers have no algebra: re-association of modular sums is exponential for them
+ * (measured: the bare arithmetic of operator+ soundness, 2704 variables, takes 73 s at w=8 and does not finish at w=16).
+ * The arithmetic fact is therefore split off: spec.h NAMES the result of an operation by a spec function sp_<op> (the
+ * paper's algorithm); "sp_<op> is sound" is the lemma schema of lemmas/wi_<op>.smt2 (z3 and cvc5 over native w-bit
+ * vectors, for every width listed there); the contract carries the INSTANCE of that lemma at its own operands and ghost
+ * points as a hypothesis, so what CBMC proves of the real code is "the real result has the concrete result as an element
+ * whenever sp_<op>(operands) has", which needs no algebra.  Every such postcondition has a SATGUARD twin.
+ * At widths <= 4 (NOLEM) the hypothesis is dropped: soundness is proved there DIRECTLY on the real code, which also
+ * cross-checks the transcription of the spec functions into the lemma files. */
 #include "spec.h"
 #include "zmodel.h"
-uint64_t g_w;                        /* ghost: the bit width of the operation (fixed to WID when the check varies WID) */
+typedef struct S_class_std__vector VEC;          /* std::vector<wrapped_interval<z_number>> */
+uint64_t g_w;                        /* ghost: the bit width of the operation */
 uint64_t g_x, g_y;                   /* ghost concrete g_w-bit values: arbitrary, never assigned by the code */
-#ifdef WIW                            /* vary=WIW:...: one run per width; the wrapint contracts stay width-generic */
+#ifdef TRP                           /* Trunc lemma pairs: TRP = 100 * width + kept bits */
+#define WIW (TRP / 100)
+#define TRK (TRP % 100)
+#endif
+#ifdef WIW
+#define GWV ((uint64_t)WIW)          /* literal width: masks fold to constants */
 #define FIXWI(w) ((w) == WIW)
 #else
+#define GWV g_w
 #define FIXWI(w) 1
 #endif
+#if defined(WIW) && WIW <= 4
+#define NOLEM 1
+#define LEMMA(e) 1
+#else
+#define LEMMA(e) (e)
+#endif
+#define M (msk(GWV))
 #define GW (g_w >= 1 && g_w <= 64 && FIXWI(g_w))
-#define GPTS (g_x <= msk(g_w) && g_y <= msk(g_w))
+#define GPTS (g_x <= M && g_y <= M)
 #define HG GHOSTG(uint64_t, g_w); GHOSTG(uint64_t, g_x); GHOSTG(uint64_t, g_y)
-#define M (msk(g_w))
+#define OKW(i) wi_okw(i, GWV)
+/* logging is off (crab::CrabLogFlag is false unless a client calls CrabEnableLog): the bodies of CRAB_LOG(...) are not verified */
+extern unsigned char _ZN4crab11CrabLogFlagE;
+#define LOGOFF (_ZN4crab11CrabLogFlagE == 0)
+#define WIFN(suffix) _ZNK4crab7domains16wrapped_intervalIN4ikos8z_numberEE##suffix
+#define WISFN(suffix) _ZN4crab7domains16wrapped_intervalIN4ikos8z_numberEE##suffix
 
-#define R_CMP _ZNK4crab7wrapinteqES0_,_ZNK4crab7wrapintleES0_,_ZNK4crab7wrapintltES0_,_ZNK4crab7wrapintgeES0_
-#define WI_is_bottom _ZNK4crab7domains16wrapped_intervalIN4ikos8z_numberEE9is_bottomEv
-#define WI_is_top _ZNK4crab7domains16wrapped_intervalIN4ikos8z_numberEE6is_topEv
-#define WI_at _ZNK4crab7domains16wrapped_intervalIN4ikos8z_numberEE2atENS_7wrapintE
-#define WI_leq _ZNK4crab7domains16wrapped_intervalIN4ikos8z_numberEEleERKS4_
-#define WI_add _ZNK4crab7domains16wrapped_intervalIN4ikos8z_numberEEplERKS4_
+/* ================================================================ constructors, constants */
+//@check id=ctor_default fn=_ZN4crab7domains16wrapped_intervalIN4ikos8z_numberEEC2Ev props=C13,C04
+void WISFN(C2Ev)(WI *self)
+__CPROVER_requires(FRESH(ctor_default, self, sizeof(WI)) && GW && GPTS)
+__CPROVER_assigns(*self)
+__CPROVER_ensures(OKW(*self) && wi_deftop(*self) && wi_top(*self) && wi_has(*self, g_x));
+void h_ctor_default(void){ WI r; HG; WISFN(C2Ev)(&r); REACH; }
 
-//@check id=is_bottom fn=_ZNK4crab7domains16wrapped_intervalIN4ikos8z_numberEE9is_bottomEv props=C13,C04
-unsigned char WI_is_bottom(WI *self)
-__CPROVER_requires(FRESH(is_bottom, self, sizeof(WI)) && GW && GPTS && wi_okw(*self, g_w))
-__CPROVER_assigns()
-__CPROVER_ensures((__CPROVER_return_value != 0) == wi_bot(*self))
-__CPROVER_ensures(__CPROVER_return_value ? !wi_has(*self, g_x) : wi_has(*self, WS(*self) & M));
-void h_is_bottom(void){ IN(WI, a); HG; WI_is_bottom(&a); REACH; }
+/* wrapped_interval(wrapint n): the singleton {n} */
+//@check id=ctor_w fn=_ZN4crab7domains16wrapped_intervalIN4ikos8z_numberEEC2ENS_7wrapintE props=C13
+void WISFN(C2ENS_7wrapintE)(WI *self, W *n)
+__CPROVER_requires(FRESH(ctor_w, self, sizeof(WI)) && FRESH(ctor_w, n, sizeof(W)) && GW && GPTS && w_ok(*n) && WD(n) == GWV)
+__CPROVER_assigns(*self)
+__CPROVER_ensures(wi_is(*self, GWV, N(n), N(n)))
+__CPROVER_ensures(wi_has(*self, g_x) == (g_x == N(n)));
+void h_ctor_w(void){ WI r; IN(W, n); HG; WISFN(C2ENS_7wrapintE)(&r, &n); REACH; }
 
-//@check id=is_top fn=_ZNK4crab7domains16wrapped_intervalIN4ikos8z_numberEE6is_topEv props=C13,C04
-unsigned char WI_is_top(WI *self)
-__CPROVER_requires(FRESH(is_top, self, sizeof(WI)) && GW && GPTS && wi_okw(*self, g_w))
-__CPROVER_assigns()
-__CPROVER_ensures((__CPROVER_return_value != 0) == wi_top(*self))
-__CPROVER_ensures(__CPROVER_return_value ==> wi_has(*self, g_x));
-void h_is_top(void){ IN(WI, a); HG; WI_is_top(&a); REACH; }
+/* wrapped_interval(wrapint start, wrapint end): equal widths (otherwise CRAB_ERROR) */
+//@check id=ctor_se fn=_ZN4crab7domains16wrapped_intervalIN4ikos8z_numberEEC2ENS_7wrapintES5_ props=C13
+void WISFN(C2ENS_7wrapintES5_)(WI *self, W *s, W *e)
+__CPROVER_requires(FRESH(ctor_se, self, sizeof(WI)) && FRESH(ctor_se, s, sizeof(W)) && FRESH(ctor_se, e, sizeof(W)) && GW && w_ok(*s) && w_ok(*e) && WD(s) == GWV && WD(e) == GWV)
+__CPROVER_assigns(*self)
+__CPROVER_ensures(OKW(*self) && wi_is(*self, GWV, N(s), N(e)));
+void h_ctor_se(void){ WI r; IN(W, s); IN(W, e); HG; WISFN(C2ENS_7wrapintES5_)(&r, &s, &e); REACH; }
 
-#define R_TOP _ZN4crab7wrapint16get_unsigned_maxEm,_ZNK4crab7wrapint12get_bitwidthEv,_ZNK4crab7wrapintmiES0_,_ZNK4crab7wrapinteqES0_
-//@check id=at fn=_ZNK4crab7domains16wrapped_intervalIN4ikos8z_numberEE2atENS_7wrapintE props=C13,C04 vary=WIW:1,8,64
-unsigned char WI_at(WI *self, W *x)
-__CPROVER_requires(FRESH(at, self, sizeof(WI)) && FRESH(at, x, sizeof(W)) && GW && wi_okw(*self, g_w) && w_ok(*x) && WD(x) == g_w)
-__CPROVER_assigns()
-__CPROVER_ensures((__CPROVER_return_value != 0) == wi_has(*self, N(x)));
-void h_at(void){ IN(WI, a); IN(W, v); HG; WI_at(&a, &v); REACH; }
+/* private wrapped_interval(start, end, is_bottom) */
+//@check id=ctor_seb fn=_ZN4crab7domains16wrapped_intervalIN4ikos8z_numberEEC2ENS_7wrapintES5_b props=C13
+void WISFN(C2ENS_7wrapintES5_b)(WI *self, W *s, W *e, unsigned char b)
+__CPROVER_requires(FRESH(ctor_seb, self, sizeof(WI)) && FRESH(ctor_seb, s, sizeof(W)) && FRESH(ctor_seb, e, sizeof(W)) && GW && w_ok(*s) && w_ok(*e) && WD(s) == GWV && WD(e) == GWV && b <= 1)
+__CPROVER_assigns(*self)
+__CPROVER_ensures(wi_ok(*self) && WW(*self) == GWV && WS(*self) == N(s) && WE(*self) == N(e) && self->f2 == b);
+void h_ctor_seb(void){ WI r; IN(W, s); IN(W, e); GHOST(unsigned char, b); HG; WISFN(C2ENS_7wrapintES5_b)(&r, &s, &e, b); REACH; }
 
-//@check id=add fn=_ZNK4crab7domains16wrapped_intervalIN4ikos8z_numberEEplERKS4_ props=C13 vary=WIW:3,8
-void WI_add(WI *ret, WI *self, WI *x)
-__CPROVER_requires(FRESH(add, ret, sizeof(WI)) && FRESH(add, self, sizeof(WI)) && FRESH(add, x, sizeof(WI)) && GW && GPTS && wi_okw(*self, g_w) && wi_okw(*x, g_w))
+//@check id=top fn=_ZN4crab7domains16wrapped_intervalIN4ikos8z_numberEE3topEv props=C13,C04
+void WISFN(3topEv)(WI *ret)
+__CPROVER_requires(FRESH(top, ret, sizeof(WI)) && GW && GPTS)
 __CPROVER_assigns(*ret)
-__CPROVER_ensures(wi_okw(*ret, g_w))
-__CPROVER_ensures((wi_has(*self, g_x) && wi_has(*x, g_y)) ==> wi_has(*ret, (g_x + g_y) & M));
-void h_add(void){ IN(WI, a); IN(WI, b); HG; WI r; WI_add(&r, &a, &b); REACH; }
+__CPROVER_ensures(OKW(*ret) && wi_deftop(*ret) && wi_top(*ret) && !wi_bot(*ret) && wi_has(*ret, g_x));
+void h_top(void){ WI r; HG; WISFN(3topEv)(&r); REACH; }
+
+//@check id=bottom fn=_ZN4crab7domains16wrapped_intervalIN4ikos8z_numberEE6bottomEv props=C13,C04
+void WISFN(6bottomEv)(WI *ret)
+__CPROVER_requires(FRESH(bottom, ret, sizeof(WI)) && GW && GPTS)
+__CPROVER_assigns(*ret)
+__CPROVER_ensures(OKW(*ret) && wi_defbot(*ret) && wi_bot(*ret) && !wi_top(*ret) && !wi_has(*ret, g_x));
+void h_bottom(void){ WI r; HG; WISFN(6bottomEv)(&r); REACH; }
+
+/* the two poles: [0111..1, 1000..0] and [1111..1, 0000..0] */
+//@check id=signed_limit fn=_ZN4crab7domains16wrapped_intervalIN4ikos8z_numberEE12signed_limitEm props=C13
+void WISFN(12signed_limitEm)(WI *ret, uint64_t b)
+__CPROVER_requires(FRESH(signed_limit, ret, sizeof(WI)) && GW && b == GWV)
+__CPROVER_assigns(*ret)
+__CPROVER_ensures(wi_is(*ret, b, smaxv(b), sminv(b)));
+void h_signed_limit(void){ WI r; GHOST(uint64_t, b); HG; WISFN(12signed_limitEm)(&r, b); REACH; }
+//@check id=unsigned_limit fn=_ZN4crab7domains16wrapped_intervalIN4ikos8z_numberEE14unsigned_limitEm props=C13
+void WISFN(14unsigned_limitEm)(WI *ret, uint64_t b)
+__CPROVER_requires(FRESH(unsigned_limit, ret, sizeof(WI)) && GW && b == GWV)
+__CPROVER_assigns(*ret)
+__CPROVER_ensures(wi_is(*ret, b, msk(b), 0));
+void h_unsigned_limit(void){ WI r; GHOST(uint64_t, b); HG; WISFN(14unsigned_limitEm)(&r, b); REACH; }
+
+/* mk_winterval(n, width): the singleton {n mod 2^width} when n fits int64; otherwise a warning and top */
+i128 g_z;                            /* ghost mathematical integer */
+#define Z63(v) ((v) >= -((i128)1 << 63) && (v) < ((i128)1 << 63))
+//@check id=mk_winterval1 fn=_ZN4crab7domains16wrapped_intervalIN4ikos8z_numberEE12mk_wintervalES3_m props=C13 allow_error=1
+void WISFN(12mk_wintervalES3_m)(WI *ret, Z *n, uint64_t width)
+__CPROVER_requires(FRESH(mk_winterval1, ret, sizeof(WI)) && FRESH(mk_winterval1, n, sizeof(Z)) && GW && width == GWV && z_inrange(ZV(n)))
+__CPROVER_assigns(*ret)
+__CPROVER_ensures(OKW(*ret))
+__CPROVER_ensures(Z63(ZV(n)) ? wi_is(*ret, width, wrapz(ZV(n), width), wrapz(ZV(n), width)) : wi_top(*ret))
+__CPROVER_ensures(wi_has(*ret, wrapz(ZV(n), width)));
+void h_mk_winterval1(void){ WI r; IN(Z, n); GHOST(uint64_t, width); HG; WISFN(12mk_wintervalES3_m)(&r, &n, width); REACH; }
+/* mk_winterval(lb, ub, width): every integer of [lb, ub], reduced modulo 2^width, is an element */
+//@check id=mk_winterval2 fn=_ZN4crab7domains16wrapped_intervalIN4ikos8z_numberEE12mk_wintervalES3_S3_m props=C13 allow_error=1
+void WISFN(12mk_wintervalES3_S3_m)(WI *ret, Z *lb, Z *ub, uint64_t width)
+__CPROVER_requires(FRESH(mk_winterval2, ret, sizeof(WI)) && FRESH(mk_winterval2, lb, sizeof(Z)) && FRESH(mk_winterval2, ub, sizeof(Z)) && GW && width == GWV && z_inrange(ZV(lb)) && z_inrange(ZV(ub)))
+__CPROVER_assigns(*ret)
+__CPROVER_ensures(OKW(*ret))
+__CPROVER_ensures((ZV(lb) <= g_z && g_z <= ZV(ub)) ==> wi_has(*ret, wrapz(g_z, width)));
+void h_mk_winterval2(void){ WI r; IN(Z, lb); IN(Z, ub); GHOST(uint64_t, width); HG; GHOSTG(i128, g_z); WISFN(12mk_wintervalES3_S3_m)(&r, &lb, &ub, width); REACH; }
+/* linear_interval_solver_impl::mk_interval = mk_winterval(c, w) */
+//@check id=mk_interval fn=_ZN4ikos27linear_interval_solver_impl11mk_intervalIN4crab7domains16wrapped_intervalINS_8z_numberEEES5_EET_T0_m props=C13 allow_error=1
+void _ZN4ikos27linear_interval_solver_impl11mk_intervalIN4crab7domains16wrapped_intervalINS_8z_numberEEES5_EET_T0_m(WI *ret, Z *n, uint64_t width)
+__CPROVER_requires(FRESH(mk_interval, ret, sizeof(WI)) && FRESH(mk_interval, n, sizeof(Z)) && GW && width == GWV && z_inrange(ZV(n)))
+__CPROVER_assigns(*ret)
+__CPROVER_ensures(OKW(*ret) && wi_has(*ret, wrapz(ZV(n), width)));
+void h_mk_interval(void){ WI r; IN(Z, n); GHOST(uint64_t, width); HG; _ZN4ikos27linear_interval_solver_impl11mk_intervalIN4crab7domains16wrapped_intervalINS_8z_numberEEES5_EET_T0_m(&r, &n, width); REACH; }
+
+/* ================================================================ queries */
+#define QUERY(tag, fn, RT, PRE, ...) \
+RT fn(WI *self) \
+__CPROVER_requires(FRESH(tag, self, sizeof(WI)) && GW && GPTS && OKW(*self) && (PRE)) \
+__CPROVER_assigns() \
+__VA_ARGS__; \
+void h_##tag(void){ IN(WI, a); HG; fn(&a); REACH; }
+/* is_bottom() <=> no element (witness for the converse: the start point) */
+//@check id=is_bottom fn=_ZNK4crab7domains16wrapped_intervalIN4ikos8z_numberEE9is_bottomEv props=C13,C04
+QUERY(is_bottom, WIFN(9is_bottomEv), unsigned char, 1,
+  __CPROVER_ensures(__CPROVER_return_value == (unsigned char)wi_bot(*self))
+  __CPROVER_ensures(__CPROVER_return_value ? !wi_has(*self, g_x) : wi_has(*self, WS(*self))))
+/* is_top() <=> every value is an element (witness for the converse: the value just before start) */
+//@check id=is_top fn=_ZNK4crab7domains16wrapped_intervalIN4ikos8z_numberEE6is_topEv props=C13,C04
+QUERY(is_top, WIFN(6is_topEv), unsigned char, 1,
+  __CPROVER_ensures(__CPROVER_return_value == (unsigned char)wi_top(*self))
+  __CPROVER_ensures(__CPROVER_return_value ? wi_has(*self, g_x) : !wi_has(*self, (WS(*self) - 1) & msk(WW(*self)))))
+//@check id=is_singleton fn=_ZNK4crab7domains16wrapped_intervalIN4ikos8z_numberEE12is_singletonEv props=C13
+QUERY(is_singleton, WIFN(12is_singletonEv), unsigned char, 1,
+  __CPROVER_ensures(__CPROVER_return_value == (unsigned char)sp_single(*self))
+  __CPROVER_ensures((__CPROVER_return_value && WW(*self) == GWV) ==> (wi_has(*self, g_x) == (g_x == WS(*self)))))
+/* get_bitwidth(line): only of a proper interval (bottom and top: CRAB_ERROR) */
+//@check id=get_bitwidth fn=_ZNK4crab7domains16wrapped_intervalIN4ikos8z_numberEE12get_bitwidthEi props=C13
+uint64_t WIFN(12get_bitwidthEi)(WI *self, uint32_t line)
+__CPROVER_requires(FRESH(get_bitwidth, self, sizeof(WI)) && GW && wi_proper(*self, GWV))
+__CPROVER_assigns()
+__CPROVER_ensures(__CPROVER_return_value == GWV);
+void h_get_bitwidth(void){ IN(WI, a); HG; WIFN(12get_bitwidthEi)(&a, 0); REACH; }
+/* start() / end(): not of a top (CRAB_ERROR) */
+#define ENDPT(tag, fn, F) \
+void fn(W *ret, WI *self) \
+__CPROVER_requires(FRESH(tag, ret, sizeof(W)) && FRESH(tag, self, sizeof(WI)) && GW && OKW(*self) && !wi_top(*self)) \
+__CPROVER_assigns(*ret) \
+__CPROVER_ensures(w_is(*ret, WW(*self), self->F.f0)); \
+void h_##tag(void){ IN(WI, a); HG; W r; fn(&r, &a); REACH; }
+//@check id=start fn=_ZNK4crab7domains16wrapped_intervalIN4ikos8z_numberEE5startEv props=C13
+ENDPT(start, WIFN(5startEv), f0)
+//@check id=end fn=_ZNK4crab7domains16wrapped_intervalIN4ikos8z_numberEE3endEv props=C13
+ENDPT(end, WIFN(3endEv), f1)
+/* the class's own membership test is the concretisation */
+//@check id=at fn=_ZNK4crab7domains16wrapped_intervalIN4ikos8z_numberEE2atENS_7wrapintE props=C13,C04 vary=WIW:3,64 vary_thorough=WIW:1,2,3,8,32,64
+//@check id=at_sym fn=_ZNK4crab7domains16wrapped_intervalIN4ikos8z_numberEE2atENS_7wrapintE tag=at harness=h_at props=C13,C04 tier=thorough timeout=900 first_timeout=200
+unsigned char WIFN(2atENS_7wrapintE)(WI *self, W *x)
+__CPROVER_requires(FRESH(at, self, sizeof(WI)) && FRESH(at, x, sizeof(W)) && GW && OKW(*self) && w_ok(*x) && WD(x) == GWV)
+__CPROVER_assigns()
+__CPROVER_ensures(__CPROVER_return_value == (unsigned char)wi_has(*self, N(x)));
+void h_at(void){ IN(WI, a); IN(W, v); HG; WIFN(2atENS_7wrapintE)(&a, &v); REACH; }
+/* crossing the north pole (0111..1 -> 1000..0) / the south pole (1111..1 -> 0000..0): of a proper interval only.
+ * Semantic reading: both neighbours of the pole are elements (a proper arc that holds two adjacent values passes between them) */
+//@check id=cross_signed fn=_ZNK4crab7domains16wrapped_intervalIN4ikos8z_numberEE18cross_signed_limitEv props=C13 replace=_ZNK4crab7domains16wrapped_intervalIN4ikos8z_numberEEleERKS4_ vary=WIW:3,64 vary_thorough=WIW:1,2,3,8,32,64
+QUERY(cross_signed, WIFN(18cross_signed_limitEv), unsigned char, wi_proper(*self, GWV),
+  __CPROVER_ensures(__CPROVER_return_value == (unsigned char)sp_cross_s(*self, GWV))
+  __CPROVER_ensures(__CPROVER_return_value ==> (wi_has(*self, smaxv(GWV)) && wi_has(*self, sminv(GWV)))))
+//@check id=cross_unsigned fn=_ZNK4crab7domains16wrapped_intervalIN4ikos8z_numberEE20cross_unsigned_limitEv props=C13 replace=_ZNK4crab7domains16wrapped_intervalIN4ikos8z_numberEEleERKS4_ vary=WIW:3,64 vary_thorough=WIW:1,2,3,8,32,64
+QUERY(cross_unsigned, WIFN(20cross_unsigned_limitEv), unsigned char, wi_proper(*self, GWV),
+  __CPROVER_ensures(__CPROVER_return_value == (unsigned char)sp_cross_u(*self, GWV))
+  __CPROVER_ensures(__CPROVER_return_value ==> (wi_has(*self, M) && wi_has(*self, 0))))
+
+/* ================================================================ order and lattice (C04), widening / narrowing (C05) */
+#define REQ2(tag) (FRESH(tag, self, sizeof(WI)) && FRESH(tag, x, sizeof(WI)) && GW && GPTS && OKW(*self) && OKW(*x))
+#define SG2(h) SATGUARD(GW && GPTS && OKW(a) && OKW(b) && (h))
+/* inclusion: exactly sp_leq; bottom on the left and top on the right say yes; a yes means inclusion of the concretisations */
+#define HYP_leq(a, b) (wi_has(a, g_x) && LEMMA(!(sp_leq(a, b) && wi_has(a, g_x)) || wi_has(b, g_x)))
+//@check id=leq fn=_ZNK4crab7domains16wrapped_intervalIN4ikos8z_numberEEleERKS4_ props=C13,C04 replace=_ZNK4crab7domains16wrapped_intervalIN4ikos8z_numberEE2atENS_7wrapintE,_ZNK4crab7domains16wrapped_intervalIN4ikos8z_numberEE6is_topEv vary=WIW:3,8,64 vary_thorough=WIW:1,2,3,4,5,8,16,32,64
+//@check id=leq_sym fn=_ZNK4crab7domains16wrapped_intervalIN4ikos8z_numberEEleERKS4_ tag=leq harness=h_leq props=C13,C04 replace=_ZNK4crab7domains16wrapped_intervalIN4ikos8z_numberEE2atENS_7wrapintE,_ZNK4crab7domains16wrapped_intervalIN4ikos8z_numberEE6is_topEv tier=thorough timeout=900 first_timeout=200
+unsigned char WIFN(leERKS4_)(WI *self, WI *x)
+__CPROVER_requires(REQ2(leq))
+__CPROVER_assigns()
+__CPROVER_ensures(__CPROVER_return_value == (unsigned char)sp_leq(*self, *x))
+__CPROVER_ensures((wi_bot(*self) || wi_top(*x)) ==> __CPROVER_return_value)
+__CPROVER_ensures((__CPROVER_return_value && HYP_leq(*self, *x)) ==> wi_has(*x, g_x));
+void h_leq(void){ IN(WI, a); IN(WI, b); HG; WIFN(leERKS4_)(&a, &b); SG2(sp_leq(a, b) && HYP_leq(a, b)); REACH; }
+/* reflexivity: the same object on both sides */
+//@check id=leq_refl fn=_ZNK4crab7domains16wrapped_intervalIN4ikos8z_numberEEleERKS4_ tag=leq props=C04 replace=_ZNK4crab7domains16wrapped_intervalIN4ikos8z_numberEE2atENS_7wrapintE,_ZNK4crab7domains16wrapped_intervalIN4ikos8z_numberEE6is_topEv
+void h_leq_refl(void){ IN(WI, a); HG; unsigned char r = WIFN(leERKS4_)(&a, &a); __CPROVER_assert(r, "x <= x"); REACH; }
+/* == is inclusion both ways; equal representations are equal */
+//@check id=eq fn=_ZNK4crab7domains16wrapped_intervalIN4ikos8z_numberEEeqERKS4_ props=C13,C04 replace=_ZNK4crab7domains16wrapped_intervalIN4ikos8z_numberEEleERKS4_ vary=WIW:3,64 vary_thorough=WIW:1,2,3,8,32,64
+unsigned char WIFN(eqERKS4_)(WI *self, WI *x)
+__CPROVER_requires(REQ2(eq))
+__CPROVER_assigns()
+__CPROVER_ensures(__CPROVER_return_value == (unsigned char)sp_eq(*self, *x))
+__CPROVER_ensures(wi_same(*self, *x) ==> __CPROVER_return_value);
+void h_eq(void){ IN(WI, a); IN(WI, b); HG; WIFN(eqERKS4_)(&a, &b); REACH; }
+//@check id=ne fn=_ZNK4crab7domains16wrapped_intervalIN4ikos8z_numberEEneERKS4_ props=C13,C04 replace=_ZNK4crab7domains16wrapped_intervalIN4ikos8z_numberEEeqERKS4_ vary=WIW:3,64 vary_thorough=WIW:1,2,3,8,32,64
+unsigned char WIFN(neERKS4_)(WI *self, WI *x)
+__CPROVER_requires(REQ2(ne))
+__CPROVER_assigns()
+__CPROVER_ensures(__CPROVER_return_value == (unsigned char)!sp_eq(*self, *x));
+void h_ne(void){ IN(WI, a); IN(WI, b); HG; WIFN(neERKS4_)(&a, &b); REACH; }
+
+#define BINOP(tag, fn, ...) \
+void fn(WI *ret, WI *self, WI *x) \
+__CPROVER_requires(FRESH(tag, ret, sizeof(WI)) && REQ2(tag)) \
+__CPROVER_assigns(*ret) \
+__CPROVER_ensures(OKW(*ret)) \
+__VA_ARGS__; \
+void h_##tag(void){ IN(WI, a); IN(WI, b); HG; WI r; fn(&r, &a, &b); SG2(HYP_##tag(a, b)); REACH; }
+#define IMP(h, c) (!(h) || (c))
+/* join: an upper bound of both */
+#define HYP_join(a, b) ((wi_has(a, g_x) || wi_has(b, g_x)) && LEMMA(wi_has(sp_join(a, b, GWV), g_x)))
+//@check id=join fn=_ZNK4crab7domains16wrapped_intervalIN4ikos8z_numberEEorERKS4_ props=C13,C04 replace=_ZNK4crab7domains16wrapped_intervalIN4ikos8z_numberEEleERKS4_,_ZNK4crab7domains16wrapped_intervalIN4ikos8z_numberEE2atENS_7wrapintE vary=WIW:3,8 vary_thorough=WIW:1,2,3,4,5,8,16,32,64 backends=cvc5,minisat first_timeout=400 timeout=600 cost=8
+//@check id=join_sym fn=_ZNK4crab7domains16wrapped_intervalIN4ikos8z_numberEEorERKS4_ tag=join harness=h_join props=C13,C04 replace=_ZNK4crab7domains16wrapped_intervalIN4ikos8z_numberEEleERKS4_,_ZNK4crab7domains16wrapped_intervalIN4ikos8z_numberEE2atENS_7wrapintE tier=thorough timeout=900 first_timeout=200
+BINOP(join, WIFN(orERKS4_),
+  __CPROVER_ensures(wi_same(*ret, sp_join(*self, *x, GWV)))
+  __CPROVER_ensures(HYP_join(*self, *x) ==> wi_has(*ret, g_x)))
+/* meet: contains the common part */
+#define HYP_meet(a, b) (wi_has(a, g_x) && wi_has(b, g_x) && LEMMA(wi_has(sp_meet(a, b, GWV), g_x)))
+//@check id=meet fn=_ZNK4crab7domains16wrapped_intervalIN4ikos8z_numberEEanERKS4_ props=C13,C04 replace=_ZNK4crab7domains16wrapped_intervalIN4ikos8z_numberEEleERKS4_,_ZNK4crab7domains16wrapped_intervalIN4ikos8z_numberEE2atENS_7wrapintE vary=WIW:3,8 vary_thorough=WIW:1,2,3,4,5,8,16,32,64 backends=cvc5,minisat first_timeout=400 timeout=600 cost=8
+//@check id=meet_sym fn=_ZNK4crab7domains16wrapped_intervalIN4ikos8z_numberEEanERKS4_ tag=meet harness=h_meet props=C13,C04 replace=_ZNK4crab7domains16wrapped_intervalIN4ikos8z_numberEEleERKS4_,_ZNK4crab7domains16wrapped_intervalIN4ikos8z_numberEE2atENS_7wrapintE tier=thorough timeout=900 first_timeout=200
+BINOP(meet, WIFN(anERKS4_),
+  __CPROVER_ensures(wi_same(*ret, sp_meet(*self, *x, GWV)))
+  __CPROVER_ensures(HYP_meet(*self, *x) ==> wi_has(*ret, g_x)))
+/* widening: an upper bound of both; and the chain argument: the result is top, or the left operand is bottom, or the right
+ * operand is included in the left one and the result is the left one, or the result has at least twice as many elements as
+ * the left operand (so an increasing chain at width w has at most w + 2 strict steps; that last step is arithmetic on a
+ * bounded counter and not machine-checked) */
+static inline bool widen_grows(WI r, WI a, WI b, uint64_t w){
+  return wi_top(r) || wi_bot(a) || (sp_leq(b, a) && wi_same(r, a)) || (!wi_bot(r) && wi_card(r, w) >= 2 * wi_card(a, w)); }
+#define HYP_widen(a, b) ((wi_has(a, g_x) || wi_has(b, g_x)) && LEMMA(wi_has(sp_widen(a, b, GWV), g_x) && widen_grows(sp_widen(a, b, GWV), a, b, GWV)))
+//@check id=widen fn=_ZNK4crab7domains16wrapped_intervalIN4ikos8z_numberEEooERKS4_ props=C13,C05 replace=_ZNK4crab7domains16wrapped_intervalIN4ikos8z_numberEEorERKS4_,_ZNK4crab7domains16wrapped_intervalIN4ikos8z_numberEEleERKS4_,_ZNK4crab7domains16wrapped_intervalIN4ikos8z_numberEEeqERKS4_,_ZNK4crab7domains16wrapped_intervalIN4ikos8z_numberEE2atENS_7wrapintE,_ZNK4crab7domains16wrapped_intervalIN4ikos8z_numberEE6is_topEv vary=WIW:3,8,64 vary_thorough=WIW:1,2,3,4,5,8,16,32,34,64 backends=cvc5,minisat first_timeout=400 timeout=600 cost=8
+//@check id=widen_sym fn=_ZNK4crab7domains16wrapped_intervalIN4ikos8z_numberEEooERKS4_ tag=widen harness=h_widen props=C13,C05 replace=_ZNK4crab7domains16wrapped_intervalIN4ikos8z_numberEEorERKS4_,_ZNK4crab7domains16wrapped_intervalIN4ikos8z_numberEEleERKS4_,_ZNK4crab7domains16wrapped_intervalIN4ikos8z_numberEEeqERKS4_,_ZNK4crab7domains16wrapped_intervalIN4ikos8z_numberEE2atENS_7wrapintE,_ZNK4crab7domains16wrapped_intervalIN4ikos8z_numberEE6is_topEv tier=thorough timeout=900 first_timeout=200
+BINOP(widen, WIFN(ooERKS4_),
+  __CPROVER_ensures(HYP_widen(*self, *x) ==> wi_has(*ret, g_x))
+  __CPROVER_ensures(LEMMA(widen_grows(sp_widen(*self, *x, GWV), *self, *x, GWV)) ==> widen_grows(*ret, *self, *x, GWV)))
+/* narrowing (= meet): of a decreasing pair keeps every element of the second argument */
+#define HYP_narrow(a, b) (sp_leq(b, a) && wi_has(b, g_x) && LEMMA(wi_has(sp_meet(a, b, GWV), g_x)))
+//@check id=narrow fn=_ZNK4crab7domains16wrapped_intervalIN4ikos8z_numberEEaaERKS4_ props=C13,C05 replace=_ZNK4crab7domains16wrapped_intervalIN4ikos8z_numberEEanERKS4_ vary=WIW:3,8 vary_thorough=WIW:1,2,3,4,5,8,16,32,64 backends=cvc5,minisat first_timeout=400 timeout=600 cost=8
+//@check id=narrow_sym fn=_ZNK4crab7domains16wrapped_intervalIN4ikos8z_numberEEaaERKS4_ tag=narrow harness=h_narrow props=C13,C05 replace=_ZNK4crab7domains16wrapped_intervalIN4ikos8z_numberEEanERKS4_ tier=thorough timeout=900 first_timeout=200
+BINOP(narrow, WIFN(aaERKS4_),
+  __CPROVER_ensures(HYP_narrow(*self, *x) ==> wi_has(*ret, g_x)))
+
+/* ================================================================ arithmetic (C13) */
+#define HYP_add(a, b) (wi_has(a, g_x) && wi_has(b, g_y) && LEMMA(wi_has(sp_add(a, b, GWV), (g_x + g_y) & M)))
+//@check id=add fn=_ZNK4crab7domains16wrapped_intervalIN4ikos8z_numberEEplERKS4_ props=C13 replace=_ZNK4crab7domains16wrapped_intervalIN4ikos8z_numberEE6is_topEv vary=WIW:3,8,64 vary_thorough=WIW:1,2,3,4,5,8,16,32,64
+//@check id=add_sym fn=_ZNK4crab7domains16wrapped_intervalIN4ikos8z_numberEEplERKS4_ tag=add harness=h_add props=C13 replace=_ZNK4crab7domains16wrapped_intervalIN4ikos8z_numberEE6is_topEv tier=thorough timeout=900 first_timeout=200
+BINOP(add, WIFN(plERKS4_),
+  __CPROVER_ensures(HYP_add(*self, *x) ==> wi_has(*ret, (g_x + g_y) & M)))
+#define HYP_sub(a, b) (wi_has(a, g_x) && wi_has(b, g_y) && LEMMA(wi_has(sp_sub(a, b, GWV), (g_x - g_y) & M)))
+//@check id=sub fn=_ZNK4crab7domains16wrapped_intervalIN4ikos8z_numberEEmiERKS4_ props=C13 replace=_ZNK4crab7domains16wrapped_intervalIN4ikos8z_numberEE6is_topEv vary=WIW:3,8,64 vary_thorough=WIW:1,2,3,4,5,8,16,32,64
+//@check id=sub_sym fn=_ZNK4crab7domains16wrapped_intervalIN4ikos8z_numberEEmiERKS4_ tag=sub harness=h_sub props=C13 replace=_ZNK4crab7domains16wrapped_intervalIN4ikos8z_numberEE6is_topEv tier=thorough timeout=900 first_timeout=200
+BINOP(sub, WIFN(miERKS4_),
+  __CPROVER_ensures(HYP_sub(*self, *x) ==> wi_has(*ret, (g_x - g_y) & M)))
+#define UNOP(tag, fn, ...) \
+void fn(WI *ret, WI *self) \
+__CPROVER_requires(FRESH(tag, ret, sizeof(WI)) && FRESH(tag, self, sizeof(WI)) && GW && GPTS && OKW(*self)) \
+__CPROVER_assigns(*ret) \
+__CPROVER_ensures(OKW(*ret)) \
+__VA_ARGS__; \
+void h_##tag(void){ IN(WI, a); HG; WI r; fn(&r, &a); SATGUARD(GW && GPTS && OKW(a) && HYP_##tag(a)); REACH; }
+#define HYP_neg(a) (wi_has(a, g_x) && LEMMA(wi_has(sp_neg(a, GWV), (0 - g_x) & M)))
+//@check id=neg fn=_ZNK4crab7domains16wrapped_intervalIN4ikos8z_numberEEngEv props=C13 replace=_ZNK4crab7domains16wrapped_intervalIN4ikos8z_numberEE6is_topEv vary=WIW:3,8,64 vary_thorough=WIW:1,2,3,4,5,8,16,32,64
+//@check id=neg_sym fn=_ZNK4crab7domains16wrapped_intervalIN4ikos8z_numberEEngEv tag=neg harness=h_neg props=C13 replace=_ZNK4crab7domains16wrapped_intervalIN4ikos8z_numberEE6is_topEv tier=thorough timeout=900 first_timeout=200
+UNOP(neg, WIFN(ngEv),
+  __CPROVER_ensures(HYP_neg(*self) ==> wi_has(*ret, (0 - g_x) & M)))
+/* compound assignment: *this = *this + x, returns this */
+//@check id=add_asg fn=_ZN4crab7domains16wrapped_intervalIN4ikos8z_numberEEpLERKS4_ props=C13 vary=WIW:3 vary_thorough=WIW:1,2,3,4
+WI *WISFN(pLERKS4_)(WI *self, WI *x)
+__CPROVER_requires(REQ2(add_asg))
+__CPROVER_assigns(*self)
+__CPROVER_ensures(__CPROVER_return_value == self && OKW(*self))
+__CPROVER_ensures((wi_has(__CPROVER_old(*self), g_x) && wi_has(*x, g_y)) ==> wi_has(*self, (g_x + g_y) & M));
+void h_add_asg(void){ IN(WI, a); IN(WI, b); HG; WISFN(pLERKS4_)(&a, &b); REACH; }
+//@check id=sub_asg fn=_ZN4crab7domains16wrapped_intervalIN4ikos8z_numberEEmIERKS4_ props=C13 vary=WIW:3 vary_thorough=WIW:1,2,3,4
+WI *WISFN(mIERKS4_)(WI *self, WI *x)
+__CPROVER_requires(REQ2(sub_asg))
+__CPROVER_assigns(*self)
+__CPROVER_ensures(__CPROVER_return_value == self && OKW(*self))
+__CPROVER_ensures((wi_has(__CPROVER_old(*self), g_x) && wi_has(*x, g_y)) ==> wi_has(*self, (g_x - g_y) & M));
+void h_sub_asg(void){ IN(WI, a); IN(WI, b); HG; WISFN(mIERKS4_)(&a, &b); REACH; }
+
+/* SRem, URem, And, Or, Xor: default_implementation = bottom if an operand is bottom, otherwise top */
+static inline i128 sremv(uint64_t x, uint64_t y, uint64_t w){ i128 a = sxv(x, w), b = sxv(y, w); return b == 0 ? 0 : a % b; }
+#define DEFAULT_OP(tag, fn, DEF, V) \
+void fn(WI *ret, WI *self, WI *x) \
+__CPROVER_requires(FRESH(tag, ret, sizeof(WI)) && REQ2(tag)) \
+__CPROVER_assigns(*ret) \
+__CPROVER_ensures(OKW(*ret) && ((wi_bot(*self) || wi_bot(*x)) ? wi_bot(*ret) : wi_top(*ret))) \
+__CPROVER_ensures((wi_has(*self, g_x) && wi_has(*x, g_y) && (DEF)) ==> wi_has(*ret, V)); \
+void h_##tag(void){ IN(WI, a); IN(WI, b); HG; WI r; fn(&r, &a, &b); REACH; }
+//@check id=default_impl fn=_ZNK4crab7domains16wrapped_intervalIN4ikos8z_numberEE22default_implementationERKS4_ props=C13
+DEFAULT_OP(default_impl, WIFN(22default_implementationERKS4_), 1, g_x)
+//@check id=srem fn=_ZNK4crab7domains16wrapped_intervalIN4ikos8z_numberEE4SRemERKS4_ props=C13 vary=WIW:3 vary_thorough=WIW:3,8
+DEFAULT_OP(srem, WIFN(4SRemERKS4_), g_y != 0, wrapz(sremv(g_x, g_y, GWV), GWV))
+//@check id=urem fn=_ZNK4crab7domains16wrapped_intervalIN4ikos8z_numberEE4URemERKS4_ props=C13 vary=WIW:3 vary_thorough=WIW:3,8
+DEFAULT_OP(urem, WIFN(4URemERKS4_), g_y != 0, g_x % (g_y == 0 ? 1 : g_y))
+//@check id=and fn=_ZNK4crab7domains16wrapped_intervalIN4ikos8z_numberEE3AndERKS4_ props=C13
+DEFAULT_OP(and, WIFN(3AndERKS4_), 1, g_x & g_y)
+//@check id=or fn=_ZNK4crab7domains16wrapped_intervalIN4ikos8z_numberEE2OrERKS4_ props=C13
+DEFAULT_OP(or, WIFN(2OrERKS4_), 1, g_x | g_y)
+//@check id=xor fn=_ZNK4crab7domains16wrapped_intervalIN4ikos8z_numberEE3XorERKS4_ props=C13
+DEFAULT_OP(xor, WIFN(3XorERKS4_), 1, g_x ^ g_y)
+
+/* ---------------------------------------------------------------- shifts by a constant (private Shl/LShr/AShr(uint64_t k)).
+ * k < width: larger amounts are undefined for the concrete operations; Shl by 0 is the identity */
+#define SHIFTK(tag, fn, KPRE, ...) \
+void fn(WI *ret, WI *self, uint64_t k) \
+__CPROVER_requires(FRESH(tag, ret, sizeof(WI)) && FRESH(tag, self, sizeof(WI)) && GW && GPTS && OKW(*self) && (KPRE)) \
+__CPROVER_assigns(*ret) \
+__CPROVER_ensures(OKW(*ret)) \
+__VA_ARGS__; \
+void h_##tag(void){ IN(WI, a); GHOST(uint64_t, k); HG; WI r; fn(&r, &a, k); SATGUARD(GW && GPTS && OKW(a) && (k < GWV) && HYP_##tag(a, k)); REACH; }
+#define HYP_shl_k(a, k) (wi_has(a, g_x) && LEMMA((k) == 0 || wi_has(sp_shl(a, k, GWV), (g_x << (k)) & M)))
+//@check id=shl_k fn=_ZNK4crab7domains16wrapped_intervalIN4ikos8z_numberEE3ShlEm props=C13 vary=WIW:3,8,32 vary_thorough=WIW:2,3,4,5,8,16,32
+SHIFTK(shl_k, WIFN(3ShlEm), k < GWV,
+  __CPROVER_ensures(HYP_shl_k(*self, k) ==> wi_has(*ret, (g_x << k) & M)))
+#define HYP_lshr_k(a, k) (wi_has(a, g_x) && LEMMA(wi_has(sp_lshr(a, k, GWV), g_x >> (k))))
+//@check id=lshr_k fn=_ZNK4crab7domains16wrapped_intervalIN4ikos8z_numberEE4LShrEm props=C13 replace=_ZNK4crab7domains16wrapped_intervalIN4ikos8z_numberEE20cross_unsigned_limitEv,_ZNK4crab7domains16wrapped_intervalIN4ikos8z_numberEE6is_topEv vary=WIW:3,8,32 vary_thorough=WIW:1,2,3,4,5,8,16,32
+SHIFTK(lshr_k, WIFN(4LShrEm), k < GWV,
+  __CPROVER_ensures(HYP_lshr_k(*self, k) ==> wi_has(*ret, g_x >> k)))
+#define HYP_ashr_k(a, k) (wi_has(a, g_x) && LEMMA(wi_has(sp_ashr(a, k, GWV), ashrv(g_x, k, GWV))))
+//@check id=ashr_k fn=_ZNK4crab7domains16wrapped_intervalIN4ikos8z_numberEE4AShrEm props=C13 replace=_ZNK4crab7domains16wrapped_intervalIN4ikos8z_numberEE18cross_signed_limitEv,_ZNK4crab7domains16wrapped_intervalIN4ikos8z_numberEE6is_topEv vary=WIW:3,8,32 vary_thorough=WIW:1,2,3,4,5,8,16,32
+SHIFTK(ashr_k, WIFN(4AShrEm), k < GWV,
+  __CPROVER_ensures(HYP_ashr_k(*self, k) ==> wi_has(*ret, ashrv(g_x, k, GWV))))
+/* shifts by an interval: the amounts are the elements of x; only amounts < width have a defined concrete result, but NO shift
+ * amount may make the analysis exit: the precondition does not restrict x */
+#define SHIFTX(tag, fn, V) \
+void fn(WI *ret, WI *self, WI *x) \
+__CPROVER_requires(FRESH(tag, ret, sizeof(WI)) && REQ2(tag)) \
+__CPROVER_assigns(*ret) \
+__CPROVER_ensures(OKW(*ret)) \
+__CPROVER_ensures((wi_has(*self, g_x) && wi_has(*x, g_y) && g_y < GWV) ==> wi_has(*ret, V)); \
+void h_##tag(void){ IN(WI, a); IN(WI, b); HG; WI r; fn(&r, &a, &b); REACH; }
+//@check id=shl fn=_ZNK4crab7domains16wrapped_intervalIN4ikos8z_numberEE3ShlERKS4_ props=C13 vary=WIW:3 vary_thorough=WIW:2,3,4
+SHIFTX(shl, WIFN(3ShlERKS4_), (g_x << g_y) & M)
+//@check id=lshr fn=_ZNK4crab7domains16wrapped_intervalIN4ikos8z_numberEE4LShrERKS4_ props=C13 vary=WIW:3 vary_thorough=WIW:2,3,4
+SHIFTX(lshr, WIFN(4LShrERKS4_), g_x >> g_y)
+//@check id=ashr fn=_ZNK4crab7domains16wrapped_intervalIN4ikos8z_numberEE4AShrERKS4_ props=C13 vary=WIW:3 vary_thorough=WIW:2,3,4
+SHIFTX(ashr, WIFN(4AShrERKS4_), ashrv(g_x, g_y, GWV))
+
+/* ---------------------------------------------------------------- width changes */
+/* Trunc(k): keep the k low bits, 1 <= k < width; the result lives at width k */
+#ifdef TRK
+#define TRKPRE(k) ((k) == TRK)
+#else
+#define TRKPRE(k) 1
+#endif
+#define HYP_trunc(a, k) (wi_has(a, g_x) && LEMMA(wi_has(sp_trunc(a, k, GWV), g_x & msk(k))))
+//@check id=trunc fn=_ZNK4crab7domains16wrapped_intervalIN4ikos8z_numberEE5TruncEj props=C13 vary=WIW:3 vary_thorough=WIW:2,3,4
+//@check id=trunc_w fn=_ZNK4crab7domains16wrapped_intervalIN4ikos8z_numberEE5TruncEj tag=trunc harness=h_trunc props=C13 vary=TRP:804,6432 vary_thorough=TRP:801,804,807,1608,3201,3208,3216,3231,6401,6408,6416,6432,6463
+void WIFN(5TruncEj)(WI *ret, WI *self, uint32_t k)
+__CPROVER_requires(FRESH(trunc, ret, sizeof(WI)) && FRESH(trunc, self, sizeof(WI)) && GW && GPTS && OKW(*self) && k >= 1 && k < GWV && TRKPRE(k))
+__CPROVER_assigns(*ret)
+__CPROVER_ensures(wi_okw(*ret, k))
+__CPROVER_ensures(HYP_trunc(*self, k) ==> wi_has(*ret, g_x & msk(k)));
+void h_trunc(void){ IN(WI, a); GHOST(uint32_t, k); HG; WI r; WIFN(5TruncEj)(&r, &a, k); SATGUARD(GW && GPTS && OKW(a) && k >= 1 && k < GWV && TRKPRE(k) && HYP_trunc(a, k)); REACH; }
+/* ZExt / SExt(bits): the result lives at width + bits <= 64 and holds the zero- / sign-extended values.
+ * Real std::vector of <= 2 pieces (unsigned_split / signed_split): loops unwound to 4 with assertion */
+//@check id=zext fn=_ZNK4crab7domains16wrapped_intervalIN4ikos8z_numberEE4ZExtEj props=C13 unwind=4 replace=_ZNK4crab7domains16wrapped_intervalIN4ikos8z_numberEEorERKS4_,_ZNK4crab7domains16wrapped_intervalIN4ikos8z_numberEEleERKS4_,_ZNK4crab7domains16wrapped_intervalIN4ikos8z_numberEE6is_topEv vary=WIW:2 vary_thorough=WIW:1,2,3 backends=minisat,cvc5 first_timeout=300 timeout=600 cost=8
+void WIFN(4ZExtEj)(WI *ret, WI *self, uint32_t bits)
+__CPROVER_requires(FRESH(zext, ret, sizeof(WI)) && FRESH(zext, self, sizeof(WI)) && GW && GPTS && OKW(*self) && bits >= 1 && bits <= 3)
+__CPROVER_assigns(*ret)
+__CPROVER_ensures(wi_okw(*ret, GWV + bits))
+__CPROVER_ensures(wi_has(*self, g_x) ==> wi_has(*ret, g_x));
+void h_zext(void){ IN(WI, a); GHOST(uint32_t, bits); HG; WI r; WIFN(4ZExtEj)(&r, &a, bits); REACH; }
+//@check id=sext fn=_ZNK4crab7domains16wrapped_intervalIN4ikos8z_numberEE4SExtEj props=C13 unwind=4 replace=_ZNK4crab7domains16wrapped_intervalIN4ikos8z_numberEEorERKS4_,_ZNK4crab7domains16wrapped_intervalIN4ikos8z_numberEEleERKS4_,_ZNK4crab7domains16wrapped_intervalIN4ikos8z_numberEE6is_topEv vary=WIW:2 vary_thorough=WIW:1,2,3 backends=minisat,cvc5 first_timeout=300 timeout=600 cost=8
+void WIFN(4SExtEj)(WI *ret, WI *self, uint32_t bits)
+__CPROVER_requires(FRESH(sext, ret, sizeof(WI)) && FRESH(sext, self, sizeof(WI)) && GW && GPTS && OKW(*self) && bits >= 1 && bits <= 3)
+__CPROVER_assigns(*ret)
+__CPROVER_ensures(wi_okw(*ret, GWV + bits))
+__CPROVER_ensures(wi_has(*self, g_x) ==> wi_has(*ret, wrapz(sxv(g_x, GWV), GWV + bits)));
+void h_sext(void){ IN(WI, a); GHOST(uint32_t, bits); HG; WI r; WIFN(4SExtEj)(&r, &a, bits); REACH; }
+
+/* ---------------------------------------------------------------- half lines, trimming, conversion */
+#define HALF(tag, fn, ...) \
+void fn(WI *ret, WI *self, unsigned char sg) \
+__CPROVER_requires(FRESH(tag, ret, sizeof(WI)) && FRESH(tag, self, sizeof(WI)) && GW && GPTS && OKW(*self) && sg <= 1) \
+__CPROVER_assigns(*ret) \
+__CPROVER_ensures(OKW(*ret)) \
+__VA_ARGS__; \
+void h_##tag(void){ IN(WI, a); GHOST(unsigned char, sg); HG; WI r; fn(&r, &a, sg); SATGUARD(GW && GPTS && OKW(a) && sg <= 1 && HYP_##tag(a, sg)); REACH; }
+/* lower_half_line: every value below (signed or unsigned order) some element */
+#define BELOW(sg) ((sg) ? sle(g_y, g_x, GWV) : g_y <= g_x)
+#define ABOVE(sg) ((sg) ? sle(g_x, g_y, GWV) : g_x <= g_y)
+#define HYP_lower_half(a, sg) (wi_has(a, g_x) && BELOW(sg) && LEMMA(wi_has(sp_lower(a, sg, GWV), g_y)))
+//@check id=lower_half fn=_ZNK4crab7domains16wrapped_intervalIN4ikos8z_numberEE15lower_half_lineEb props=C13 replace=_ZNK4crab7domains16wrapped_intervalIN4ikos8z_numberEE2atENS_7wrapintE,_ZNK4crab7domains16wrapped_intervalIN4ikos8z_numberEE6is_topEv vary=WIW:3,8,64 vary_thorough=WIW:1,2,3,4,5,8,16,32,64
+//@check id=lower_half_sym fn=_ZNK4crab7domains16wrapped_intervalIN4ikos8z_numberEE15lower_half_lineEb tag=lower_half harness=h_lower_half props=C13 replace=_ZNK4crab7domains16wrapped_intervalIN4ikos8z_numberEE2atENS_7wrapintE,_ZNK4crab7domains16wrapped_intervalIN4ikos8z_numberEE6is_topEv tier=thorough timeout=900 first_timeout=200
+HALF(lower_half, WIFN(15lower_half_lineEb),
+  __CPROVER_ensures(HYP_lower_half(*self, sg) ==> wi_has(*ret, g_y)))
+#define HYP_upper_half(a, sg) (wi_has(a, g_x) && ABOVE(sg) && LEMMA(wi_has(sp_upper(a, sg, GWV), g_y)))
+//@check id=upper_half fn=_ZNK4crab7domains16wrapped_intervalIN4ikos8z_numberEE15upper_half_lineEb props=C13 replace=_ZNK4crab7domains16wrapped_intervalIN4ikos8z_numberEE2atENS_7wrapintE,_ZNK4crab7domains16wrapped_intervalIN4ikos8z_numberEE6is_topEv vary=WIW:3,8,64 vary_thorough=WIW:1,2,3,4,5,8,16,32,64
+//@check id=upper_half_sym fn=_ZNK4crab7domains16wrapped_intervalIN4ikos8z_numberEE15upper_half_lineEb tag=upper_half harness=h_upper_half props=C13 replace=_ZNK4crab7domains16wrapped_intervalIN4ikos8z_numberEE2atENS_7wrapintE,_ZNK4crab7domains16wrapped_intervalIN4ikos8z_numberEE6is_topEv tier=thorough timeout=900 first_timeout=200
+HALF(upper_half, WIFN(15upper_half_lineEb),
+  __CPROVER_ensures(HYP_upper_half(*self, sg) ==> wi_has(*ret, g_y)))
+/* the linear_interval_solver_impl wrappers */
+//@check id=lis_lower_half fn=_ZN4ikos27linear_interval_solver_impl15lower_half_lineIN4crab7domains16wrapped_intervalINS_8z_numberEEEEET_RKS7_b props=C13 vary=WIW:3 vary_thorough=WIW:1,2,3,4
+void _ZN4ikos27linear_interval_solver_impl15lower_half_lineIN4crab7domains16wrapped_intervalINS_8z_numberEEEEET_RKS7_b(WI *ret, WI *self, unsigned char sg)
+__CPROVER_requires(FRESH(lis_lower_half, ret, sizeof(WI)) && FRESH(lis_lower_half, self, sizeof(WI)) && GW && GPTS && OKW(*self) && sg <= 1)
+__CPROVER_assigns(*ret)
+__CPROVER_ensures(OKW(*ret))
+__CPROVER_ensures((wi_has(*self, g_x) && BELOW(sg)) ==> wi_has(*ret, g_y));
+void h_lis_lower_half(void){ IN(WI, a); GHOST(unsigned char, sg); HG; WI r; _ZN4ikos27linear_interval_solver_impl15lower_half_lineIN4crab7domains16wrapped_intervalINS_8z_numberEEEEET_RKS7_b(&r, &a, sg); REACH; }
+//@check id=lis_upper_half fn=_ZN4ikos27linear_interval_solver_impl15upper_half_lineIN4crab7domains16wrapped_intervalINS_8z_numberEEEEET_RKS7_b props=C13 vary=WIW:3 vary_thorough=WIW:1,2,3,4
+void _ZN4ikos27linear_interval_solver_impl15upper_half_lineIN4crab7domains16wrapped_intervalINS_8z_numberEEEEET_RKS7_b(WI *ret, WI *self, unsigned char sg)
+__CPROVER_requires(FRESH(lis_upper_half, ret, sizeof(WI)) && FRESH(lis_upper_half, self, sizeof(WI)) && GW && GPTS && OKW(*self) && sg <= 1)
+__CPROVER_assigns(*ret)
+__CPROVER_ensures(OKW(*ret))
+__CPROVER_ensures((wi_has(*self, g_x) && ABOVE(sg)) ==> wi_has(*ret, g_y));
+void h_lis_upper_half(void){ IN(WI, a); GHOST(unsigned char, sg); HG; WI r; _ZN4ikos27linear_interval_solver_impl15upper_half_lineIN4crab7domains16wrapped_intervalINS_8z_numberEEEEET_RKS7_b(&r, &a, sg); REACH; }
+/* trim_interval(i, j): refine i with x != c when j is the singleton {c}: nothing but c is lost, nothing is gained */
+#define KEEPS(a, b) (wi_has(a, g_x) && !(sp_single(b) && g_x == WS(b)))
+#define HYP_trim(a, b) (LEMMA(IMP(KEEPS(a, b), wi_has(sp_trim(a, b, GWV), g_x)) && IMP(wi_has(sp_trim(a, b, GWV), g_x), wi_has(a, g_x))))
+//@check id=trim fn=_ZN4ikos27linear_interval_solver_impl13trim_intervalIN4crab7domains16wrapped_intervalINS_8z_numberEEEEET_RKS7_S9_ props=C13 vary=WIW:3,8,64 vary_thorough=WIW:1,2,3,4,5,8,16,32,64
+//@check id=trim_sym fn=_ZN4ikos27linear_interval_solver_impl13trim_intervalIN4crab7domains16wrapped_intervalINS_8z_numberEEEEET_RKS7_S9_ tag=trim harness=h_trim props=C13 tier=thorough timeout=900 first_timeout=200
+BINOP(trim, _ZN4ikos27linear_interval_solver_impl13trim_intervalIN4crab7domains16wrapped_intervalINS_8z_numberEEEEET_RKS7_S9_,
+  __CPROVER_ensures((HYP_trim(*self, *x) && KEEPS(*self, *x)) ==> wi_has(*ret, g_x))
+  __CPROVER_ensures((HYP_trim(*self, *x) && wi_has(*ret, g_x)) ==> wi_has(*self, g_x)))
+
+/* ================================================================ splits (real std::vector, <= 2 elements appended; loops unwound to 4) */
+#define VB(v) ((v)->f0.f0.f0.f0)
+#define VE(v) ((v)->f0.f0.f0.f1)
+#define VC(v) ((v)->f0.f0.f0.f2)
+#define VN(v) (VB(v) == 0 ? (uint64_t)0 : (uint64_t)(VE(v) - VB(v)))
+#define VEMPTY(v) (VB(v) == 0 && VE(v) == 0 && VC(v) == 0)
+#define EL(v, i) (VB(v)[i])
+/* some element of the vector has g as an element */
+static inline bool vec_has(VEC *v, uint64_t g){ uint64_t n = VN(v); return (n >= 1 && wi_has(EL(v, 0), g)) || (n >= 2 && wi_has(EL(v, 1), g)) || (n >= 3 && wi_has(EL(v, 2), g)) || (n >= 4 && wi_has(EL(v, 3), g)); }
+static inline bool vec_all_proper(VEC *v, uint64_t w){ uint64_t n = VN(v); return (n < 1 || wi_proper(EL(v, 0), w)) && (n < 2 || wi_proper(EL(v, 1), w)) && (n < 3 || wi_proper(EL(v, 2), w)) && (n < 4 || wi_proper(EL(v, 3), w)); }
+static inline bool vec_none_cross_s(VEC *v, uint64_t w){ uint64_t n = VN(v); return (n < 1 || !sp_cross_s(EL(v, 0), w)) && (n < 2 || !sp_cross_s(EL(v, 1), w)) && (n < 3 || !sp_cross_s(EL(v, 2), w)) && (n < 4 || !sp_cross_s(EL(v, 3), w)); }
+static inline bool vec_none_cross_u(VEC *v, uint64_t w){ uint64_t n = VN(v); return (n < 1 || !sp_cross_u(EL(v, 0), w)) && (n < 2 || !sp_cross_u(EL(v, 1), w)) && (n < 3 || !sp_cross_u(EL(v, 2), w)) && (n < 4 || !sp_cross_u(EL(v, 3), w)); }
+#define SPLIT(tag, fn, MAXN, EXTRA) \
+void fn(WI *self, VEC *out) \
+__CPROVER_requires(FRESH(tag, self, sizeof(WI)) && FRESH(tag, out, sizeof(VEC)) && GW && GPTS && OKW(*self) && !wi_top(*self) && VEMPTY(out)) \
+__CPROVER_assigns(*out) \
+__CPROVER_ensures(VN(out) <= (MAXN) && (wi_bot(*self) ? VN(out) == 0 : VN(out) >= 1) && vec_all_proper(out, GWV) && (EXTRA)) \
+__CPROVER_ensures(wi_has(*self, g_x) == vec_has(out, g_x)); \
+void h_##tag(void){ IN(WI, a); VEC v; HG; fn(&a, &v); REACH; }
+/* nsplit: cut at the north pole; no piece crosses it; the pieces cover exactly self.  Not of a top (get_bitwidth: CRAB_ERROR) */
+//@check id=signed_split fn=_ZNK4crab7domains16wrapped_intervalIN4ikos8z_numberEE12signed_splitERSt6vectorIS4_SaIS4_EE props=C13 unwind=4 replace=_ZNK4crab7domains16wrapped_intervalIN4ikos8z_numberEEleERKS4_,_ZNK4crab7domains16wrapped_intervalIN4ikos8z_numberEE6is_topEv vary=WIW:3 vary_thorough=WIW:1,2,3,4,8
+SPLIT(signed_split, WIFN(12signed_splitERSt6vectorIS4_SaIS4_EE), 2, vec_none_cross_s(out, GWV))
+/* ssplit: cut at the south pole */
+//@check id=unsigned_split fn=_ZNK4crab7domains16wrapped_intervalIN4ikos8z_numberEE14unsigned_splitERSt6vectorIS4_SaIS4_EE props=C13 unwind=4 replace=_ZNK4crab7domains16wrapped_intervalIN4ikos8z_numberEEleERKS4_,_ZNK4crab7domains16wrapped_intervalIN4ikos8z_numberEE6is_topEv vary=WIW:3 vary_thorough=WIW:1,2,3,4,8
+SPLIT(unsigned_split, WIFN(14unsigned_splitERSt6vectorIS4_SaIS4_EE), 2, vec_none_cross_u(out, GWV))
+/* cut: both; <= 3 pieces of a proper interval */
+//@check id=su_split fn=_ZNK4crab7domains16wrapped_intervalIN4ikos8z_numberEE25signed_and_unsigned_splitERSt6vectorIS4_SaIS4_EE props=C13 unwind=5 replace=_ZNK4crab7domains16wrapped_intervalIN4ikos8z_numberEEleERKS4_,_ZNK4crab7domains16wrapped_intervalIN4ikos8z_numberEE6is_topEv vary=WIW:3 vary_thorough=WIW:1,2,3,4 backends=cvc5,minisat first_timeout=400 timeout=600 cost=8
+SPLIT(su_split, WIFN(25signed_and_unsigned_splitERSt6vectorIS4_SaIS4_EE), 4, vec_none_cross_s(out, GWV) && vec_none_cross_u(out, GWV))
+/* trim_zero: the pieces hold exactly the non-zero elements.  Of a proper interval only (get_bitwidth first: CRAB_ERROR otherwise) */
+//@check id=trim_zero fn=_ZNK4crab7domains16wrapped_intervalIN4ikos8z_numberEE9trim_zeroERSt6vectorIS4_SaIS4_EE props=C13 unwind=4 replace=_ZNK4crab7domains16wrapped_intervalIN4ikos8z_numberEE2atENS_7wrapintE,_ZNK4crab7domains16wrapped_intervalIN4ikos8z_numberEEeqERKS4_,_ZNK4crab7domains16wrapped_intervalIN4ikos8z_numberEE6is_topEv vary=WIW:3 vary_thorough=WIW:1,2,3,4,8
+void WIFN(9trim_zeroERSt6vectorIS4_SaIS4_EE)(WI *self, VEC *out)
+__CPROVER_requires(FRESH(trim_zero, self, sizeof(WI)) && FRESH(trim_zero, out, sizeof(VEC)) && GW && GPTS && wi_proper(*self, GWV) && VEMPTY(out))
+__CPROVER_assigns(*out)
+__CPROVER_ensures(VN(out) <= 2 && vec_all_proper(out, GWV) && !vec_has(out, 0))
+__CPROVER_ensures((wi_has(*self, g_x) && g_x != 0) == vec_has(out, g_x));
+void h_trim_zero(void){ IN(WI, a); VEC v; HG; WIFN(9trim_zeroERSt6vectorIS4_SaIS4_EE)(&a, &v); REACH; }
+/* exact_meet: the pieces hold exactly the common elements (an empty vector: no common element) */
+//@check id=exact_meet fn=_ZNK4crab7domains16wrapped_intervalIN4ikos8z_numberEE10exact_meetERKS4_RSt6vectorIS4_SaIS4_EE props=C13,C04 unwind=4 replace=_ZNK4crab7domains16wrapped_intervalIN4ikos8z_numberEE2atENS_7wrapintE,_ZNK4crab7domains16wrapped_intervalIN4ikos8z_numberEEeqERKS4_,_ZNK4crab7domains16wrapped_intervalIN4ikos8z_numberEE6is_topEv vary=WIW:3 vary_thorough=WIW:1,2,3,4 backends=cvc5,minisat first_timeout=400 timeout=600 cost=8
+void WIFN(10exact_meetERKS4_RSt6vectorIS4_SaIS4_EE)(WI *self, WI *x, VEC *out)
+__CPROVER_requires(REQ2(exact_meet) && FRESH(exact_meet, out, sizeof(VEC)) && VEMPTY(out))
+__CPROVER_assigns(*out)
+__CPROVER_ensures(VN(out) <= 2)
+__CPROVER_ensures((wi_has(*self, g_x) && wi_has(*x, g_x)) == vec_has(out, g_x));
+void h_exact_meet(void){ IN(WI, a); IN(WI, b); VEC v; HG; WIFN(10exact_meetERKS4_RSt6vectorIS4_SaIS4_EE)(&a, &b, &v); REACH; }
+
+/* ================================================================ multiplication and division (small widths, bit-precise z_number products) */
+#define NOCROSS(i) (wi_proper(i, GWV) && !sp_cross_s(i, GWV) && !sp_cross_u(i, GWV))
+#define MULPART(tag, fn) \
+void fn(WI *ret, WI *self, WI *x) \
+__CPROVER_requires(FRESH(tag, ret, sizeof(WI)) && REQ2(tag) && LOGOFF && wi_proper(*self, GWV) && wi_proper(*x, GWV)) \
+__CPROVER_assigns(*ret) \
+__CPROVER_ensures(OKW(*ret)) \
+__CPROVER_ensures((NOCROSS(*self) && NOCROSS(*x) && wi_has(*self, g_x) && wi_has(*x, g_y)) ==> wi_has(*ret, (g_x * g_y) & M)); \
+void h_##tag(void){ IN(WI, a); IN(WI, b); HG; WI r; fn(&r, &a, &b); REACH; }
+/* unsigned_mul / signed_mul on pieces that cross no pole (what operator* feeds them) */
+//@check id=unsigned_mul fn=_ZNK4crab7domains16wrapped_intervalIN4ikos8z_numberEE12unsigned_mulERKS4_ props=C13 defs=ZM_PRECISE vary=WIW:3 vary_thorough=WIW:1,2,3,4
+MULPART(unsigned_mul, WIFN(12unsigned_mulERKS4_))
+//@check id=signed_mul fn=_ZNK4crab7domains16wrapped_intervalIN4ikos8z_numberEE10signed_mulERKS4_ props=C13 defs=ZM_PRECISE vary=WIW:3 vary_thorough=WIW:1,2,3,4
+MULPART(signed_mul, WIFN(10signed_mulERKS4_))
+/* operator*: <= 3 x 3 pieces, <= 2 exact-meet results each: loops unwound to 5 */
+//@check id=mul fn=_ZNK4crab7domains16wrapped_intervalIN4ikos8z_numberEEmlERKS4_ props=C13 defs=ZM_PRECISE unwind=5 timeout=900 first_timeout=600 cost=9 replace=_ZNK4crab7domains16wrapped_intervalIN4ikos8z_numberEEorERKS4_,_ZNK4crab7domains16wrapped_intervalIN4ikos8z_numberEEleERKS4_,_ZNK4crab7domains16wrapped_intervalIN4ikos8z_numberEEeqERKS4_,_ZNK4crab7domains16wrapped_intervalIN4ikos8z_numberEE2atENS_7wrapintE,_ZNK4crab7domains16wrapped_intervalIN4ikos8z_numberEE6is_topEv vary=WIW:2 vary_thorough=WIW:1,2,3
+void WIFN(mlERKS4_)(WI *ret, WI *self, WI *x)
+__CPROVER_requires(FRESH(mul, ret, sizeof(WI)) && REQ2(mul) && LOGOFF)
+__CPROVER_assigns(*ret)
+__CPROVER_ensures(OKW(*ret))
+__CPROVER_ensures((wi_has(*self, g_x) && wi_has(*x, g_y)) ==> wi_has(*ret, (g_x * g_y) & M));
+void h_mul(void){ IN(WI, a); IN(WI, b); HG; WI r; WIFN(mlERKS4_)(&r, &a, &b); REACH; }
+/* unsigned_div / signed_div on pieces (divisor without 0) */
+//@check id=unsigned_div fn=_ZNK4crab7domains16wrapped_intervalIN4ikos8z_numberEE12unsigned_divERKS4_ props=C13 vary=WIW:3 vary_thorough=WIW:1,2,3,4
+void WIFN(12unsigned_divERKS4_)(WI *ret, WI *self, WI *x)
+__CPROVER_requires(FRESH(unsigned_div, ret, sizeof(WI)) && REQ2(unsigned_div) && LOGOFF && wi_proper(*self, GWV) && wi_proper(*x, GWV) && !wi_has(*x, 0) && !sp_cross_u(*self, GWV))
+__CPROVER_assigns(*ret)
+__CPROVER_ensures(OKW(*ret))
+__CPROVER_ensures((wi_has(*self, g_x) && wi_has(*x, g_y)) ==> wi_has(*ret, g_x / (g_y == 0 ? 1 : g_y)));
+void h_unsigned_div(void){ IN(WI, a); IN(WI, b); HG; WI r; WIFN(12unsigned_divERKS4_)(&r, &a, &b); REACH; }
+static inline uint64_t sdivv(uint64_t x, uint64_t y, uint64_t w){ i128 a = sxv(x, w), b = sxv(y, w); return wrapz(b == 0 ? 0 : ZM_div(a, b), w); }
+//@check id=signed_div fn=_ZNK4crab7domains16wrapped_intervalIN4ikos8z_numberEE10signed_divERKS4_ props=C13 defs=ZM_PRECISE vary=WIW:3 vary_thorough=WIW:1,2,3,4
+void WIFN(10signed_divERKS4_)(WI *ret, WI *self, WI *x)
+__CPROVER_requires(FRESH(signed_div, ret, sizeof(WI)) && REQ2(signed_div) && LOGOFF && NOCROSS(*self) && NOCROSS(*x) && !wi_has(*x, 0))
+__CPROVER_assigns(*ret)
+__CPROVER_ensures(OKW(*ret))
+__CPROVER_ensures((wi_has(*self, g_x) && wi_has(*x, g_y)) ==> wi_has(*ret, sdivv(g_x, g_y, GWV)));
+void h_signed_div(void){ IN(WI, a); IN(WI, b); HG; WI r; WIFN(10signed_divERKS4_)(&r, &a, &b); REACH; }
+//@check id=udiv fn=_ZNK4crab7domains16wrapped_intervalIN4ikos8z_numberEE4UDivERKS4_ props=C13 unwind=5 timeout=900 first_timeout=600 cost=9 replace=_ZNK4crab7domains16wrapped_intervalIN4ikos8z_numberEEorERKS4_,_ZNK4crab7domains16wrapped_intervalIN4ikos8z_numberEEleERKS4_,_ZNK4crab7domains16wrapped_intervalIN4ikos8z_numberEEeqERKS4_,_ZNK4crab7domains16wrapped_intervalIN4ikos8z_numberEE2atENS_7wrapintE,_ZNK4crab7domains16wrapped_intervalIN4ikos8z_numberEE6is_topEv vary=WIW:2 vary_thorough=WIW:1,2,3
+void WIFN(4UDivERKS4_)(WI *ret, WI *self, WI *x)
+__CPROVER_requires(FRESH(udiv, ret, sizeof(WI)) && REQ2(udiv) && LOGOFF)
+__CPROVER_assigns(*ret)
+__CPROVER_ensures(OKW(*ret))
+__CPROVER_ensures((wi_has(*self, g_x) && wi_has(*x, g_y) && g_y != 0) ==> wi_has(*ret, g_x / (g_y == 0 ? 1 : g_y)));
+void h_udiv(void){ IN(WI, a); IN(WI, b); HG; WI r; WIFN(4UDivERKS4_)(&r, &a, &b); REACH; }
+//@check id=sdiv fn=_ZNK4crab7domains16wrapped_intervalIN4ikos8z_numberEE4SDivERKS4_ props=C13 defs=ZM_PRECISE unwind=5 timeout=900 first_timeout=600 cost=9 replace=_ZNK4crab7domains16wrapped_intervalIN4ikos8z_numberEEorERKS4_,_ZNK4crab7domains16wrapped_intervalIN4ikos8z_numberEEleERKS4_,_ZNK4crab7domains16wrapped_intervalIN4ikos8z_numberEEeqERKS4_,_ZNK4crab7domains16wrapped_intervalIN4ikos8z_numberEE2atENS_7wrapintE,_ZNK4crab7domains16wrapped_intervalIN4ikos8z_numberEE6is_topEv vary=WIW:2 vary_thorough=WIW:1,2,3
+void WIFN(4SDivERKS4_)(WI *ret, WI *self, WI *x)
+__CPROVER_requires(FRESH(sdiv, ret, sizeof(WI)) && REQ2(sdiv) && LOGOFF)
+__CPROVER_assigns(*ret)
+__CPROVER_ensures(OKW(*ret))
+__CPROVER_ensures((wi_has(*self, g_x) && wi_has(*x, g_y) && g_y != 0) ==> wi_has(*ret, sdivv(g_x, g_y, GWV)));
+void h_sdiv(void){ IN(WI, a); IN(WI, b); HG; WI r; WIFN(4SDivERKS4_)(&r, &a, &b); REACH; }
+
+/* ================================================================ to_interval: the signed values, as a mathematical interval */
+#include "../interval/spec.h"
+//@check id=to_interval fn=_ZNK4crab7domains16wrapped_intervalIN4ikos8z_numberEE11to_intervalEv props=C13 defs=ZBITS=64 replace=_ZNK4crab7domains16wrapped_intervalIN4ikos8z_numberEE18cross_signed_limitEv,_ZNK4crab7domains16wrapped_intervalIN4ikos8z_numberEE6is_topEv vary=WIW:3,64 vary_thorough=WIW:1,2,3,8,32,64
+void WIFN(11to_intervalEv)(I *ret, WI *self)
+__CPROVER_requires(FRESH(to_interval, ret, sizeof(I)) && FRESH(to_interval, self, sizeof(WI)) && GW && GPTS && OKW(*self))
+__CPROVER_assigns(*ret)
+__CPROVER_ensures(i_ok(*ret))
+__CPROVER_ensures(wi_bot(*self) == i_bot(*ret))
+__CPROVER_ensures(wi_has(*self, g_x) ==> i_has(*ret, sxv(g_x, GWV)));
+void h_to_interval(void){ IN(WI, a); HG; I r; WIFN(11to_intervalEv)(&r, &a); REACH; }
